@@ -36,6 +36,14 @@ func (a *Adv) MembershipProbes() int {
 				}},
 				{"leaf-index+1", func(x *types.V2Transaction) bool { x.SiacoinInputs[0].Parent.StateElement.LeafIndex++; return true }},
 				{"leaf-index^1", func(x *types.V2Transaction) bool { x.SiacoinInputs[0].Parent.StateElement.LeafIndex ^= 1; return true }},
+				{"leaf-index^2^32", func(x *types.V2Transaction) bool {
+					x.SiacoinInputs[0].Parent.StateElement.LeafIndex ^= 1 << 32
+					return true
+				}},
+				{"leaf-index^2^63", func(x *types.V2Transaction) bool {
+					x.SiacoinInputs[0].Parent.StateElement.LeafIndex ^= 1 << 63
+					return true
+				}},
 				{"proof-bitflip", func(x *types.V2Transaction) bool {
 					p := x.SiacoinInputs[0].Parent.StateElement.MerkleProof
 					if len(p) == 0 {
@@ -208,7 +216,7 @@ func (a *Adv) MembershipProbes() int {
 					n++
 				}
 				// leaf index / proof of another element
-				for _, name := range []string{"leaf-index^1", "proof-bitflip", "maturity-down"} {
+				for _, name := range []string{"leaf-index^1", "leaf-index^2^40", "proof-bitflip", "maturity-down"} {
 					nm := name
 					if a.emit(CloneBlock(a.Honest), "v1-supplement/siacoin/"+nm, "reject", nil, func(bs *consensus.V1BlockSupplement) {
 						for i := range bs.Transactions[ti].SiacoinInputs {
@@ -219,6 +227,8 @@ func (a *Adv) MembershipProbes() int {
 							switch nm {
 							case "leaf-index^1":
 								el.StateElement.LeafIndex ^= 1
+							case "leaf-index^2^40":
+								el.StateElement.LeafIndex ^= 1 << 40
 							case "proof-bitflip":
 								if len(el.StateElement.MerkleProof) > 0 {
 									el.StateElement.MerkleProof[0][7] ^= 1
